@@ -24,7 +24,7 @@ Starts(E, n)   == {i \in Idx(E) : E[i].k \in StartKinds /\ E[i].n = n}
 (* finished by returning or raising (not by cancellation) *)
 Fins(E, n)     == {i \in Idx(E) : E[i].n = n /\ (E[i].k \in {"end", "raise", "run-end"} \/ (E[i].k = "run-exc" /\ E[i].v = "exc"))}
 (* the body is over, whatever the way *)
-Overs(E, n)    == Fins(E, n) \cup {i \in Idx(E) : E[i].n = n /\ (E[i].k = "cancel-done" \/ (E[i].k = "run-exc" /\ E[i].v = "cancelled"))}
+Overs(E, n)    == Fins(E, n) \cup {i \in Idx(E) : E[i].n = n /\ (E[i].k \in {"cancel-done", "cancel-raise"} \/ (E[i].k = "run-exc" /\ E[i].v = "cancelled"))}
 Failed(E, n)   == {i \in Idx(E) : E[i].n = n /\ (E[i].k = "raise" \/ (E[i].k = "run-exc" /\ E[i].v = "exc"))}
 StartPos(E, n) == IF Starts(E, n) = {} THEN 0 ELSE MinOf(Starts(E, n))
 FinPos(E, n)   == IF Fins(E, n) = {} THEN 0 ELSE MinOf(Fins(E, n))
@@ -177,7 +177,7 @@ SymC14(C, E) ==
                   \/ (E[f].k = "end" /\ E[j].sn[n - 1][2] # "ret")
                   \/ (E[f].k = "raise" /\ E[j].sn[n - 1][3] # n))
   \* a body that was cancelled, or never entered, is never reported done
-  \/ \E n \in NodesOf(C) \ {1} : IsJobN(C, n) /\ Fins(E, n) = {} /\ \E j \in Snaps(E) : Bit(E[j].sn[n - 1][1], 8)
+  \/ \E n \in NodesOf(C) \ {1} : IsJobN(C, n) /\ Fins(E, n) = {} /\ C.cout[n] # "exc" /\ \E j \in Snaps(E) : Bit(E[j].sn[n - 1][1], 8)
   \/ \E i \in Snaps(E) : \E j \in Snaps(E) : i < j /\ \E n \in 1..Len(E[i].sn) :
      LET a == E[i].sn[n]  b == E[j].sn[n] IN
        \/ Bit(a[1], 8) /\ ~Bit(b[1], 8)              \* is_done reverted
